@@ -14,6 +14,49 @@ import vf
 LEVEL = "model_checking"
 
 
+def startup_two_volumes(ctx, tpath):
+    """The real start-up with the job directory on another volume than the working directory, both ways round; the
+    outcome of each process (started / "can't start Zeno") becomes one decision record for C18_Mon."""
+    import json, shutil, subprocess, tempfile
+    shm = "/dev/shm"
+    if not (os.path.isdir(shm) and os.access(shm, os.W_OK)):
+        ctx.log("two-volume start-up case skipped: no second writable volume (/dev/shm)")
+        return 0
+    n = 0
+    for k, (dparent, oparent) in enumerate(((ctx.scratch, shm), (shm, ctx.scratch))):
+        d = tempfile.mkdtemp(prefix="verif-c18-", dir=dparent)
+        os.rmdir(d)
+        other = tempfile.mkdtemp(prefix="verif-c18o-", dir=oparent)
+        t = os.path.join(ctx.scratch, "c18start-%d.ndjson" % k)
+        try:
+            p = subprocess.run([os.path.join(ctx.bindir, "zeno-verif"), "c18start", d, t, other], capture_output=True, text=True, timeout=180,
+                               env=dict(os.environ, VERIF_SEED=str(ctx.seed)))
+        except subprocess.TimeoutExpired:
+            raise vf.Inconclusive("the start-up scenario did not end")
+        finally:
+            shutil.rmtree(d, ignore_errors=True)
+            shutil.rmtree(other, ignore_errors=True)
+        evs = vf.read_ndjson(t) if os.path.exists(t) else []
+        if any(e["ev"] == "startup.skip" for e in evs):
+            ctx.log("two-volume start-up case skipped: the volumes have the same free space")
+            continue
+        tries = [e for e in evs if e["ev"] == "startup.try"]
+        if not tries:
+            print(p.stdout[-1000:], p.stderr[-1000:])
+            raise vf.Inconclusive("the start-up scenario recorded nothing")
+        accepted = any(e["ev"] == "startup.accepted" for e in evs)
+        refused = (not accepted) and p.returncode == 1 and "can't start Zeno" in p.stdout
+        if not accepted and not refused:
+            print(p.stdout[-1000:], p.stderr[-1000:])
+            raise vf.Inconclusive("the start-up was neither accepted nor refused (exit %d)" % p.returncode)
+        e = {k2: v for k2, v in tries[0].items() if k2 not in ("seq", "us")}
+        e.update(ev="thr", ser=900001 + k, refused=refused)
+        with open(tpath, "a") as f:
+            f.write(json.dumps(e) + "\n")
+        n += 1
+    return n
+
+
 def run(ctx):
     quick = ctx.tier == "quick"
     r = ctx.tlc("DiskGuard", "C18_grid.cfg", workers=8, name="grid")
@@ -21,7 +64,7 @@ def run(ctx):
     if not r.ok:
         print(r.out[-2000:])
         raise vf.Inconclusive("DiskGuard grid model does not satisfy its invariants (specification error)")
-    ctx.build_harness()
+    ctx.build_harness(("unit-verif", "zeno-verif"))
     tpath = os.path.join(ctx.scratch, "c18.ndjson")
     if ctx.replay:
         tpath = ctx.replay
@@ -34,6 +77,8 @@ def run(ctx):
             vals += [str(v) for v in range(2, 130)] + ["%d.5" % v for v in range(0, 60)]
         for v in vals:
             ctx.run_bin("unit-verif", ["c18cfg", tpath, v], timeout=60)
+        nst = startup_two_volumes(ctx, tpath)
+        ctx.log("start-up decisions with the job on another volume: %d" % nst)
     events = vf.read_ndjson(tpath)
     mon = ctx.validate("C18_Mon", "C18_mon.cfg", tpath, name="mon")
     if mon["hwm"] < mon["total"]:
